@@ -62,7 +62,8 @@ class Ctx:
     def fail(self, key, what, case):
         """The property's statement is false on the real code for `case`.  `key` identifies the
         failure for the known-findings file (specific input / call site / declaration)."""
-        if len(self.failures) < 500:
+        # at most 20 instances per key are kept (a flood of one known finding must never crowd out another failure)
+        if self.dist["fail:" + key] < 20:
             self.failures.append({"key": key, "what": what, "case": case})
         self.dist["fail:" + key] += 1
 
